@@ -1,6 +1,17 @@
 import CGV.Props.C08
+import CGV.Props.C08Path
+import CGV.Props.C08Frag
 #print axioms CGV.C08.C08_bonding
 #print axioms CGV.C08.C08_format_bonding
 #print axioms CGV.C08.C08_single_node
 #print axioms CGV.formatBonding_wf
 #print axioms CGV.stripAux_descs
+#print axioms CGV.C08.writeStep_bead
+#print axioms CGV.C08.writeLoop_beads
+#print axioms CGV.C08.writeGraph_beads
+#print axioms CGV.C08.toksOf_text
+#print axioms CGV.C08.toksOf_clean
+#print axioms CGV.C08.toksOf_valid
+#print axioms CGV.C08.C08_path_fragment
+#print axioms CGV.C13.C13_tokens
+#print axioms CGV.C04.C04_read_bare_chain
